@@ -36,6 +36,11 @@ pub enum ParseError {
     TextAtTopLevel(Span),
     /// Duplicate xml:id is not allowed
     DuplicateId(String, Span),
+    /// A namespace declaration that the Namespaces in XML recommendation does
+    /// not allow: the `xmlns` prefix declared, another prefix than `xml` bound
+    /// to the XML namespace, or anything bound to the xmlns namespace.
+    /// Carries the name of the declaring attribute.
+    InvalidNamespaceDeclaration(String, Span),
     /// xmlparser error
     XmlParser(xmlparser::Error, usize),
 }
@@ -58,6 +63,7 @@ impl ParseError {
             ParseError::MultipleElementsAtTopLevel(span) => *span,
             ParseError::TextAtTopLevel(span) => *span,
             ParseError::DuplicateId(_, span) => *span,
+            ParseError::InvalidNamespaceDeclaration(_, span) => *span,
             ParseError::XmlParser(_, position) => Span::new(*position, *position),
         }
     }
@@ -194,6 +200,9 @@ impl std::fmt::Display for ParseError {
             }
             ParseError::TextAtTopLevel(_) => write!(f, "Text at top level"),
             ParseError::DuplicateId(s, _) => write!(f, "Duplicate xml:id: {}", s),
+            ParseError::InvalidNamespaceDeclaration(s, _) => {
+                write!(f, "Invalid namespace declaration: {}", s)
+            }
             ParseError::XmlParser(e, _position) => write!(f, "Parser error: {}", e),
         }
     }
